@@ -31,6 +31,9 @@ TEMPLATES = {
     "trailing": "Mark: M1\nBlock: B1\n    Mark: M2\n    End block\n\n# comment\n\nMark: M3\n\n",
     "block_in_watch": "Watch: In1 > 0\n    Block: BW\n        Mark: W1\n        End block\n    Mark: W2\nBlock: B1\n    Mark: M1\n    Wait: 0.6s\n    End block\nMark: M2\n",
     "block_in_alarm": "Alarm: In1 > 0\n    Block: BA\n        Mark: A1\n        End block\nMark: M1\nBlock: B1\n    Mark: M2\n    End block\nMark: M3\n",
+    # a UOD command line that is invoked again (Alarm body / second macro call) while its earlier instance still runs
+    "uod_in_alarm": "Alarm: In1 > 0\n    CmdA\nMark: M1\nWait: 3s\n",
+    "uod_in_macro": "Macro: X\n    CmdA\nCall macro: X\nCall macro: X\nMark: M1\nWait: 2s\n",
     # two interrupt flows each starting a block while the main flow's block is active: both must queue for the lock
     "two_watch_blocks": "Watch: In1 > 0\n    Block: WB1\n        Mark: W1\n        End block\nWatch: In1 > 0\n    Block: WB2\n        Mark: W2\n        End block\nBlock: B1\n    Mark: M1\n    Wait: 0.5s\n    End block\nMark: M2\n",
     # openers whose body is empty or only a comment / blank line: the following lines belong to the enclosing scope
@@ -138,7 +141,7 @@ def run_scenario(sym, tname: str, n_ticks: int, *, in1_steps=True, durations_sym
     if durations_symbolic:
         for name in ("CmdA", "CmdB", "CmdC"):
             if name in pc:
-                durations[name] = sym.int(f"dur_{name}", 1, 3)
+                durations[name] = sym.int(f"dur_{name}", 1, sym.shard.get("dmax", 8 if str(tname).startswith("uod_in") else 3))
     a = b = None
     if "In1" in pc and sym.shard.get("in1") is not None:
         a, b = sym.shard["in1"]                    # concrete trajectory chosen by the shard
